@@ -393,7 +393,78 @@ def rule_d(ctx, out):
         raise AnalysisError("fewer than 4 writes of storage_dep/memory_dep found")
 
 
+def rule_e(ctx, out):
+    """Unification of two equal loads / hashes: the accesses examined for an intervening dependent store are exactly those strictly
+    between the two unified accesses.  Idiom: P = L[a::].index(second); window = L[lo:up]; ...; L.pop(Q).
+    Required: lo == a, Q == a + P, up == Q (as linear forms over the index variables)."""
+    from ..core.idioms import linear_form
+    n = 0
+    for f in ctx.p.funcs_in(GO):
+        idx = {}      # name -> (list name, start expr)
+        for st in own_nodes(f.node):
+            if isinstance(st, ast.Assign) and isinstance(st.targets[0], ast.Name) and isinstance(st.value, ast.Call) and call_name(st.value) == "index" \
+                    and isinstance(st.value.func.value, ast.Subscript) and isinstance(st.value.func.value.slice, ast.Slice) \
+                    and isinstance(st.value.func.value.value, ast.Name) and st.value.func.value.slice.lower is not None and st.value.func.value.slice.upper is None:
+                idx[st.targets[0].id] = (st.value.func.value.value.id, st.value.func.value.slice.lower, st)
+        for pname, (lname, start, pst) in idx.items():
+            wins = [st for st in own_nodes(f.node) if isinstance(st, ast.Assign) and isinstance(st.value, ast.Subscript) and is_name(st.value.value, lname)
+                    and isinstance(st.value.slice, ast.Slice) and st.value.slice.upper is not None
+                    and any(is_name(x, pname) for x in ast.walk(st.value.slice.upper))]
+            pops = [c for c in calls_in(f.node, "pop") if isinstance(c.func, ast.Attribute) and is_name(c.func.value, lname) and c.args
+                    and any(is_name(x, pname) for x in ast.walk(c.args[0]))]
+            if not wins or not pops:
+                continue
+            n += 1
+            a = linear_form(start)
+            want = dict(a or {})
+            want[pname] = want.get(pname, 0) + 1
+            for w in wins:
+                lo, up = linear_form(w.value.slice.lower) if w.value.slice.lower is not None else {}, linear_form(w.value.slice.upper)
+                ok_lo = lo == a
+                ok_up = up == want
+                if ok_lo and ok_up:
+                    out.ok({"function": f.name, "window": short(w.value), "between": f"{norm(start)} .. {norm(start)} + {pname}"})
+                else:
+                    out.bad(f"forwarding-window:{f.name}:{norm(w.value.slice.lower) if w.value.slice.lower else ''}:{norm(w.value.slice.upper)}",
+                            f"{f.name}: the second access is at position {norm(start)} + {pname}, but the accesses checked for a dependent store are "
+                            f"`{short(w.value)}`: an access strictly between the two unified ones is skipped (or one outside is included)", where(f, w))
+            for c in pops:
+                if linear_form(c.args[0]) == want:
+                    out.ok({"function": f.name, "removed": short(c)})
+                else:
+                    out.bad(f"forwarding-window:{f.name}:pop:{norm(c.args[0])}", f"{f.name} removes position {norm(c.args[0])}, the unified access is at "
+                            f"{norm(start)} + {pname}", where(f, c))
+    if n < 2:
+        raise AnalysisError(f"only {n} unification windows found (expected loads and hashes)")
+
+
+def rule_f(ctx, out):
+    """Every earlier / later store is examined: the scans of generate_dependences are bounded only by the index, never by a flag
+    that is set when a dependence was found."""
+    f = ctx.func(f"{GO}.generate_dependences")
+    loops = [n for n in own_nodes(f.node) if isinstance(n, ast.While)]
+    if len(loops) < 5:
+        raise AnalysisError("generate_dependences: fewer than 5 scan loops found")
+    for l in loops:
+        tv = {x.id for x in ast.walk(l.test) if isinstance(x, ast.Name)}
+        # names assigned somewhere under an `if dep` inside this loop
+        flags = set()
+        for st in ast.walk(l):
+            if isinstance(st, ast.If) and "dep" in {x.id for x in ast.walk(st.test) if isinstance(x, ast.Name)}:
+                for a in ast.walk(st):
+                    if isinstance(a, ast.Assign):
+                        flags |= {t.id for t in a.targets if isinstance(t, ast.Name)}
+        early = [b for b in ast.walk(l) if isinstance(b, ast.Break)]
+        if tv & flags or early:
+            out.bad(f"scan-stops-at-first-dependence:{short(l.test, 40)}", f"the scan `while {short(l.test, 50)}` ends as soon as one dependent store was found: "
+                    f"other stores the access may alias get no ordering edge", where(f, l))
+        else:
+            out.ok({"scan": short(l.test, 40), "bounded_by": sorted(tv)})
+
+
 RULES = [
+    ("C02.e", "unification windows cover every access between the two unified ones", 2, rule_e),
+    ("C02.f", "dependence scans are exhaustive", 5, rule_f),
     ("C02.a", "alias decision over-approximates byte overlap", 3000, rule_a),
     ("C02.b", "no may-overlap edge suppressed", 8, rule_b),
     ("C02.c", "order lists are built consistently by the two passes", 6, rule_c),
